@@ -5,7 +5,7 @@ From Coq Require Import String.
 From Coq Require Import List Ascii ZArith Bool.
 From CGV Require Import Base.PyBase Base.PyVal Gen.DialectGen Dialect.DialectImpl Dialect.DialectDefs
      Dialect.DialectCheck Dialect.FaultModels.
-From CGV Require Reader.ReaderImpl.
+From CGV Require Reader.ReaderImpl Frag.StripImpl.
 Import ListNotations.
 
 (** [impl]: the exception raised by MoleculeResolver.from_string(s).resolve_all() on the faulty
@@ -15,6 +15,9 @@ Inductive fcase :=
     kind: 4 two '=' in an entry, 5 too many positional values, 6 non-numeric charge/weight;
     text: what stands after '#' (lk 0, 2) resp. after the first ';' (lk 1) in the faulty token *)
 | FAnnot (lk kind : nat) (tbl : table) (text : pystr) (impl : option err)
+(** FAnnot for lk 1, 2 with [ftext], the text of the whole fragment definition the faulty token stands in (what
+    strip_bonding_descriptors is called on), judged ALSO by the strip component's character machine *)
+| FStrip (lk kind : nat) (tbl : table) (text ftext : pystr) (impl : option err)
 (** kind: 1 unclosed ring index, 2 ring bond duplicating an edge; events of the faulty graph text,
     marker m is the injected one; [text] is what read_cgsmiles is called on (the base graph in braces, or
     the cleaned text of a coarse fragment), judged by the reader component's model ReaderImpl.read_cgsmiles *)
@@ -40,6 +43,9 @@ Definition annot_model (lk : nat) (fo : float_oracle) (text : pystr) : res attrs
 Definition corr_ok (c : fcase) : bool :=
   match c with
   | FAnnot lk _ tbl text impl => agree (annot_model lk (fo_of_table tbl) text) impl
+  | FStrip lk _ tbl text ftext impl =>
+      agree (annot_model lk (fo_of_table tbl) text) impl &&
+      agree (Frag.StripImpl.strip_bonding_descriptors (fo_of_table tbl) ftext) impl
   | FRing _ evs _ tbl text impl =>
       agree (ring_model evs) impl && agree (Reader.ReaderImpl.read_cgsmiles (fo_of_table tbl) text) impl
   | FFrag nodes edges dict _ impl => agree (resolve_step dict edges nodes (Ok tt)) impl
@@ -105,7 +111,7 @@ Definition dup_present (evs : list ev) (m : Z) : bool :=
 
 Definition prop_fail (c : fcase) : nat :=
   match c with
-  | FAnnot lk kind tbl text impl =>
+  | FAnnot lk kind tbl text impl | FStrip lk kind tbl text _ impl =>
       let fo := fo_of_table tbl in
       if negb (fault_present lk kind fo text) then 90%nat
       else match verdict (Nat.eqb kind 6) impl with
